@@ -395,9 +395,11 @@ pub fn run_c09(ctx: &Ctx, st: &mut Local) {
         v
     };
     let texts: Vec<(usize, usize)> = if ctx.quick() {
-        vec![(1, 4096), (2, 4096), (3, 3000), (5, 20_000), (6, 8000), (8, 12_000), (8, 40_000), (9, 12_000), (11, 16_000), (11, 40_000), (13, 10_944)]
+        vec![(1, 4096), (2, 4096), (3, 3000), (5, 20_000), (6, 8000), (8, 12_000), (8, 40_000), (9, 12_000), (11, 16_000), (11, 40_000), (13, 10_944),
+            (3, 40_000), (14, 80_000), (15, 45_000), (16, 60_000), (17, 60_000)]
     } else {
-        vec![(0, 4096), (1, 4096), (2, 4096), (3, 3000), (4, 2048), (8, 12_000), (8, 40_000), (9, 12_000), (9, 40_000), (10, 4000), (11, 16_000), (11, 40_000), (11, 80_000), (13, 10_944), (13, 76_608), (1, 65536), (2, 70000), (8, 140_000), (5, 200_000)]
+        vec![(0, 4096), (1, 4096), (2, 4096), (3, 3000), (4, 2048), (8, 12_000), (8, 40_000), (9, 12_000), (9, 40_000), (10, 4000), (11, 16_000), (11, 40_000), (11, 80_000), (13, 10_944), (13, 76_608), (1, 65536), (2, 70000), (8, 140_000), (5, 200_000),
+            (3, 40_000), (3, 200_000), (14, 80_000), (14, 210_000), (15, 45_000), (15, 180_000), (12, 60_000), (6, 100_000), (16, 60_000), (16, 200_000), (17, 60_000), (17, 180_000)]
     };
     let mut f = |st: &mut Local, eng: &str, _i: u64, c: &StreamCase, k: &Comp| {
         let fam = k.family();
@@ -416,6 +418,19 @@ pub fn run_c09(ctx: &Ctx, st: &mut Local) {
         if let (Ok(Ok(a)), Ok(Ok(b))) = (&rc, &rr) {
             *st.sums.entry(format!("{}:corr_cur", fam)).or_insert(0) += a.corr.len() as u64;
             *st.sums.entry(format!("{}:corr_ref", fam)).or_insert(0) += b.corr.len() as u64;
+            // the same totals per plaintext ("from arbitrary plaintexts": the bound has to hold for a population
+            // made of any one of them)
+            if eng == "E6" {
+                if let Some(t) = c.descr.split(' ').find(|w| w.starts_with("text")) {
+                    *st.sums.entry(format!("group|{}|{}|cur", fam, t)).or_insert(0) += a.corr.len() as u64;
+                    *st.sums.entry(format!("group|{}|{}|ref", fam, t)).or_insert(0) += b.corr.len() as u64;
+                    // zlib: additionally per level (all strategies, window and memory settings of that level)
+                    if let Comp::Zlib(l, ..) = k {
+                        *st.sums.entry(format!("group|zlib level {}|{}|cur", l, t)).or_insert(0) += a.corr.len() as u64;
+                        *st.sums.entry(format!("group|zlib level {}|{}|ref", l, t)).or_insert(0) += b.corr.len() as u64;
+                    }
+                }
+            }
         }
     };
     e6_compgrid(ctx, "E6", &comps, &texts, st, &mut f);
@@ -446,6 +461,27 @@ pub fn finalize_c09(total: &mut Local) {
             });
         }
     }
+    // per (compressor family, plaintext): all configurations of the family on that plaintext; for zlib also per
+    // (level, plaintext): all strategies / window / memory settings of one level
+    let groups: Vec<(String, u64)> = total.sums.iter().filter(|(k, _)| k.starts_with("group|") && k.ends_with("|cur")).map(|(k, v)| (k.clone(), *v)).collect();
+    let mut ngroups = 0;
+    let mut table = String::new();
+    for (k, cur) in groups {
+        let rk = format!("{}ref", &k[..k.len() - 3]);
+        let rf = *total.sums.get(&rk).unwrap_or(&0);
+        ngroups += 1;
+        if !k.contains(" level ") {
+            table.push_str(&format!("{}={}/{} ", &k[6..k.len() - 4], cur, rf));
+        }
+        if cur as f64 > 1.03 * rf as f64 + 16.0 {
+            let parts: Vec<&str> = k.split('|').collect();
+            total.viols.push(Viol {
+                property: "C09".into(), engine: "aggregate".into(), index: 0, class: format!("aggregate:corrections-grew:{}:{}", parts[1], parts[2]),
+                panic_site: None, detail: format!("{} on plaintext {}: corrections cur {} ref {} over all configurations both builds accept", parts[1], parts[2], cur, rf), input_hex: String::new(),
+            });
+        }
+    }
+    total.eng("E6").notes.push(format!("{} (family or zlib level, plaintext) groups judged with the same 3% bound (+16 bytes); cur/ref bytes of the family groups: {}", ngroups, table.trim_end()));
 }
 
 // ---------------------------------------------------------------------------------------------
